@@ -254,6 +254,10 @@ int handle_read(struct snapraid_handle* handle, block_off_t file_pos, unsigned c
 			out_missing("Reading data from missing file '%s' at offset %" PRIu64 ".\n", handle->path, offset);
 		else
 			out("Reading missing data from file '%s' at offset %" PRIu64 ".\n", handle->path, offset);
+
+		/* it's not the failure of a system call, don't leave in errno */
+		/* the error of a previous one, because the callers check for EIO */
+		errno = ENXIO;
 		return -1;
 	}
 
@@ -272,6 +276,8 @@ int handle_read(struct snapraid_handle* handle, block_off_t file_pos, unsigned c
 			/* LCOV_EXCL_STOP */
 		}
 		if (read_ret == 0) {
+			/* errno is not set at the end of the file */
+			errno = ENXIO;
 			out("Unexpected end of file '%s' at offset %" PRIu64 ". %s.\n", handle->path, offset, strerror(errno));
 			return -1;
 		}
